@@ -17,7 +17,7 @@ import (
 )
 
 func init() {
-	register(&Scenario{Name: "sysxfer", Props: []string{"C01", "C16"}, Kind: "system", Run: runSysXfer})
+	register(&Scenario{Name: "sysxfer", Props: []string{"C01", "C16", "C13"}, Kind: "system", Run: runSysXfer})
 }
 
 func genBody(x *X, label string, maxKB int) []byte {
@@ -275,6 +275,38 @@ func runSysXfer(x *X) {
 	for id, n := range genIDs {
 		if n > 1 {
 			x.Violate("C16", "C16/duplicate-generated-id", "an identifier was generated %d times within one run (%s...)", n, id[:4])
+		}
+	}
+	// ---- C13: every fault-free exchange is in exactly the class its final status puts it in ----
+	if x.Want("C13") {
+		waitQuiet()
+		var wantOK, wantFail uint64
+		perOK, perFail := map[string]uint64{}, map[string]uint64{}
+		clean := true
+		for _, ex := range all {
+			if ex.retried || ex.got == nil || ex.got.status == 0 || len(ex.seen) != 1 {
+				clean = false
+				break
+			}
+			if ex.got.status >= 500 {
+				wantFail++
+				perFail[ex.seen[0].backend]++
+			} else {
+				wantOK++
+				perOK[ex.seen[0].backend]++
+			}
+		}
+		if clean {
+			m := env.lb.GetMetricsCollector().GetMetrics()
+			if m.SuccessfulRequests != wantOK || m.FailedRequests != wantFail || m.TotalRequests != wantOK+wantFail {
+				x.Violate("C13", "C13/wrong-class{system}", "after %d fault-free exchanges with final statuses giving %d successful and %d failed (5xx), the metrics say total=%d successful=%d failed=%d", len(all), wantOK, wantFail, m.TotalRequests, m.SuccessfulRequests, m.FailedRequests)
+			}
+			for name, bm := range m.BackendMetrics {
+				if bm.SuccessfulRequests != perOK[name] || bm.FailedRequests != perFail[name] {
+					x.Violate("C13", "C13/wrong-class{per-backend}", "backend %s answered %d non-5xx and %d 5xx; its metrics say successful=%d failed=%d total=%d", name, perOK[name], perFail[name], bm.SuccessfulRequests, bm.FailedRequests, bm.TotalRequests)
+				}
+			}
+			x.Probe("classes-checked")
 		}
 	}
 }
